@@ -54,6 +54,10 @@ type World struct {
 	Sched func(w *World, it *QView) Decision
 
 	BaseDir string
+	// CallBlockLimit, if > 0, lets a call into a node return to the scenario after this long while it
+	// keeps running in the background (see WaitIdle).
+	CallBlockLimit time.Duration
+	blocked        atomic.Int64
 	closers []func()
 
 	// Violations collected by monitors.
@@ -462,3 +466,18 @@ type EvCall struct {
 	Args string `json:"args,omitempty"`
 	Err  string `json:"err,omitempty"`
 }
+
+// WaitIdle waits until no call into a node is running in the background any more.
+func (w *World) WaitIdle(max time.Duration) bool {
+	deadline := time.Now().Add(max)
+	for w.blocked.Load() > 0 {
+		if time.Now().After(deadline) {
+			return false
+		}
+		time.Sleep(200 * time.Microsecond)
+	}
+	return true
+}
+
+// Blocked returns the number of calls still running in the background.
+func (w *World) Blocked() int64 { return w.blocked.Load() }
